@@ -11,15 +11,15 @@ PROPERTY = "C16"
 LEVEL = "exploration"
 ANCHORS = ["src/pylife/materiallaws/rambgood.py", "src/pylife/materiallaws/hookeslaw.py",
            "src/pylife/materiallaws/true_stress_strain.py"]
-SHARDS = {"quick": 4, "thorough": 16}
+SHARDS = {"quick": 8, "thorough": 16}
 WATCHDOG = {"quick": 900, "thorough": 3000}
 SOAK = {"thorough": ['tests/materiallaws', 'tests/strength/fkm_nonlinear']}      # contract soak (pv/contracts_more.py) under the repository's own tests
-REQUIRED_CLASSES = {t: ["ro:n<0.08", "ro:n>0.3", "ro:n>0.5", "ro:zero_in_array", "ro:strain>0.02", "ro:elastic", "ro:negative", "ro:scalar", "ro:array", "ro:fixed_scalar_probes", "ro:2d_arrays_C_and_F_order", "ro:integer_typed_stress",
+REQUIRED_CLASSES = {t: ["ro:n<0.08", "ro:n>0.3", "ro:n>0.5", "ro:zero_in_array", "ro:strain>0.02", "ro:elastic", "ro:negative", "ro:scalar", "ro:array", "ro:fixed_scalar_probes", "ro:2d_arrays_C_and_F_order", "ro:integer_typed_stress", "ro:arrays_reused_by_the_caller",
                         "hooke:nu<0", "hooke:nu>0.45", "hooke:1d", "hooke:plane_stress", "hooke:plane_strain", "hooke:3d", "true:negative", "true:small_strains"]
                     for t in ("quick", "thorough")}
 REQUIRED_MONITORS = ["ro:strain==formula", "ro:stress(strain(s))==s", "ro:strain(stress(e))==e", "ro:odd", "ro:strictly_increasing",
                      "ro:compliance==d_strain/d_stress", "ro:modulus==1/compliance", "ro:masing==2f(x/2)",
-                     "ro:delta_stress(delta_strain(x))==x", "ro:lower_hysteresis_meets_curve", "ro:scalar_probes==formula", "ro:2d_arrays_elementwise", "ro:integer_arguments==float_arguments", "hooke:stress(strain(s))==s",
+                     "ro:delta_stress(delta_strain(x))==x", "ro:lower_hysteresis_meets_curve", "ro:scalar_probes==formula", "ro:2d_arrays_elementwise", "ro:integer_arguments==float_arguments", "ro:independent_of_array_identity_and_history", "hooke:stress(strain(s))==s",
                      "hooke:plane_strain==3d(e33=0)", "hooke:plane_stress==3d(s33=0)", "hooke:G_and_K", "true_stress_strain"]
 RULE = ("seeded Ramberg-Osgood sets (E 50e3..250e3, K 200..4000, n 0.04..0.45) with arguments generated through the strain "
         "(|eps| <= 0.1: physically meaningful), scalar and array; Hooke sets (E, -1 < nu < 0.5) with random stress/strain states; "
@@ -150,6 +150,15 @@ def _ro(case, ctx, rng):
                 and _close(b2, np.asarray(A), 4e-9 / max(n, 0.04), 4e-10) and _close(d2, 2 * np.asarray(A), 1e-4, 1e-5)):
             ok, bad = False, {"layout": lay, "stress": np.asarray(A), "stress(strain(.))": b2}
     ctx.check("ro:2d_arrays_elementwise", ok, observed=bad, tags=mech, detail={"E": E, "K": K, "n": n})
+    from .. import alias
+    ctx.tag("ro:arrays_reused_by_the_caller")
+    sa, sb = K * np.array([0.1, 0.45, -0.8]), K * np.array([-0.3, 0.2, 0.6])
+    for nm in ("strain", "delta_strain", "tangential_compliance", "plastic_strain"):
+        alias.probe(ctx, "ro:independent_of_array_identity_and_history", getattr(ro, nm), [sa], [sb], detail={"function": nm})
+    ea, eb = np.array([1e-4, 3e-3, -0.02]), np.array([-5e-4, 0.01, 0.03])
+    for nm in ("stress", "delta_stress"):
+        alias.probe(ctx, "ro:independent_of_array_identity_and_history",
+                    (lambda x: ro.stress(x, rtol=tol, tol=tol)) if nm == "stress" else (lambda x: ro.delta_stress(x)), [ea], [eb], detail={"function": nm})
     # the same scalar arguments for every parameter set of the run (python float and numpy scalar): a result that depends on
     # anything but (E, K, n, argument) - state shared between instances or calls - shows against the closed form
     ctx.tag("ro:fixed_scalar_probes")
@@ -157,6 +166,23 @@ def _ro(case, ctx, rng):
     foil = RambergOsgood(E * 0.5, K * 1.5, min(0.9, n * 1.3))        # another material asked the same questions first (self-contained replay)
     for sp in (50.0, 200.0, -125.0):
         foil.strain(sp), foil.delta_strain(2 * sp), foil.tangential_compliance(sp), foil.lower_hysteresis(sp, abs(sp))
+    for ep in (1e-4, 2e-3, -0.02):
+        try:
+            foil.stress(ep, rtol=tol, tol=tol), foil.delta_stress(2 * ep)
+        except RuntimeError:
+            pass
+    inv_ok, inv_bad = True, None
+    for ep in (1e-4, 2e-3, -0.02):
+        for conv in (float, np.float64):
+            try:
+                s_ = float(np.asarray(ro.stress(conv(ep), rtol=tol, tol=tol)))
+                ds_ = float(np.asarray(ro.delta_stress(conv(2 * ep))))
+            except RuntimeError:
+                continue
+            back_ = [N.ro_strain(s_, E, K, n), 2 * N.ro_strain(ds_ / 2, E, K, n)]
+            if not (_close(back_[:1], [ep], 4e-9, 1e-16) and _close(back_[1:], [2 * ep], 1e-4, 1e-9)):      # delta_stress solves at its default tolerance
+                inv_ok, inv_bad = False, {"strain": ep, "type": conv.__name__, "stress": s_, "delta_stress": ds_, "strain_of_them": back_}
+    ctx.check("ro:scalar_probes==formula", inv_ok, observed=inv_bad, tags=mech, detail={"E": E, "K": K, "n": n, "what": "scalar stress / delta_stress after a foil instance"})
     for sp in (50.0, 200.0, -125.0):
         for conv in (float, np.float64):
             x = conv(sp)
